@@ -107,9 +107,9 @@ class RunStream(C.Stream):
     p_interrupt = 0.0             # probability of an injected keyboard interrupt
     p_fault = 0.0                 # probability of a failing reporting backend
     quick_cases = 60
-    thorough_cases = 600
+    thorough_cases = 8000
     quick_seconds = 40
-    thorough_seconds = 400
+    thorough_seconds = 600
     chunk = 20
     corpus = []
 
